@@ -232,6 +232,26 @@ func (c *genCtx) gen(depth int, nn, incap bool) *Expr {
 		}
 		return Alt(kids...)
 	case 4, 5:
+		if !nn && c.draw(0, 11, "bracketshape") == 0 {
+			// bracket groups whose whole content is one modified term, or that carry a modifier of their own:
+			// [ x+ ] , { x+ } , [ x! ] , [ x ]? , { x }*
+			x := c.leaf()
+			if !incap && rapid.Bool().Draw(c.t, "bracketcap") {
+				x = Cap(x)
+			}
+			inner := Group(rapid.SampledFrom([]string{"+", "!", "+"}).Draw(c.t, "innermod"), x)
+			inner.Style = 2
+			outer := Group(rapid.SampledFrom([]string{"?", "*"}).Draw(c.t, "bracketmod"), inner)
+			outer.Style = 1
+			if c.draw(0, 2, "doublemod") == 0 {
+				// the same modifier twice: [ x ]? , { x }*
+				plainInner := Group(outer.Mod, x)
+				plainInner.Style = 1
+				outer = Group("?", plainInner)
+				outer.Style = 2
+			}
+			return outer
+		}
 		mods := []string{"?", "*", "+", ""}
 		if nn {
 			mods = []string{"+", ""}
